@@ -236,7 +236,7 @@ v('c16r11-execute-silent-unlisted', 'C16', 'C16-R11', 'src/terminal.go', "\t\tac
 v('c01r6-nbsp-rewrite', 'C01', 'C01-R6', 'src/pattern.go', "\t\tlowerText := strings.ToLower(text)\n", "\t\ttext = strings.ReplaceAll(text, \"\\u00a0\", \" \")\n\t\tlowerText := strings.ToLower(text)\n")
 v('c01r4-space-before-escape', 'C01', 'C01-R4', 'src/pattern.go', "\t\tif str[i] == '\\\\' && i+1 < len(str) && str[i+1] == ' ' {\n\t\t\ttoken.WriteByte(' ')\n\t\t\ti++\n\t\t} else if str[i] == ' ' {", "\t\tif str[i] == ' ' && i > 0 {\n\t\t\ttokens = append(tokens, token.String())\n\t\t\ttoken.Reset()\n\t\t} else if str[i] == '\\\\' && i+1 < len(str) && str[i+1] == ' ' {\n\t\t\ttoken.WriteByte(' ')\n\t\t\ti++\n\t\t} else if str[i] == ' ' {")
 v('c18r9-append-uncapped', 'C18', 'C18-R9', 'src/history.go', "\tif len(lines) > h.maxSize {\n\t\tlines = lines[len(lines)-h.maxSize:]\n\t}\n", "")
-v('c06r9-stream-despite-tail', 'C08', 'C06-R9', 'src/core.go', " && !opts.Sync && opts.Tail == 0\n", " && !opts.Sync\n")
+v('c06r9-stream-despite-tail', 'C06', 'C06-R9', 'src/core.go', " && !opts.Sync && opts.Tail == 0\n", " && !opts.Sync\n")
 v('c13r10-push-outside-lock', 'C13', 'C13-R10', 'src/chunklist.go', "\tret := cl.lastChunk().push(cl.trans, data)\n\tcl.mutex.Unlock()\n\treturn ret\n", "\tlast := cl.lastChunk()\n\tcl.mutex.Unlock()\n\treturn last.push(cl.trans, data)\n")
 
 b('v1-range-test-order', ['C01', 'C02', 'C03', 'C05'], 'src/algo/algo.go', "\t\t\tif char >= 'A' && char <= 'Z' {\n\t\t\t\tchar += 32\n\t\t\t} else if char > unicode.MaxASCII {\n\t\t\t\tchar = unicode.To(unicode.LowerCase, char)\n\t\t\t}\n\t\t}\n\t\tif normalize {\n\t\t\tchar = normalizeRune(char)\n\t\t}\n\t\tpchar := pattern[indexAt(pidx, lenPattern, forward)]", "\t\t\tif char <= 'Z' && char >= 'A' {\n\t\t\t\tchar += 32\n\t\t\t} else if char > unicode.MaxASCII {\n\t\t\t\tchar = unicode.To(unicode.LowerCase, char)\n\t\t\t}\n\t\t}\n\t\tif normalize {\n\t\t\tchar = normalizeRune(char)\n\t\t}\n\t\tpchar := pattern[indexAt(pidx, lenPattern, forward)]")
